@@ -3,7 +3,8 @@
    kind "true":   get_amplitudes_true(sample2unit, use): {W, wmi4, ids, amps, f2, n, spike8, meanv,
                   ampq, peakq, rescq}   (meanv: [num, den] per id, [0, 0] = NaN; *q = round(Q x))
    kind "stored": templates_amplitudes / clusters_amplitudes: {ids, amps, mean}
-   kind "peaks":  templates_channels / clusters_channels / *_waveforms_durations: {W, channels, dur}
+   kind "peaks":  templates_channels / clusters_channels / *_waveforms_durations / templates_probes:
+                  {W, channels, dur, chprobe, tprobes (<<>> for clusters)}
    kind "depths": get_depths: {x (first-component features per spike), ys, depthq (-1 = NaN)}      *)
 EXTENDS Summaries
 VARIABLE i
@@ -34,6 +35,10 @@ CheckStored(r) == Clause(r.id, "mean_stored",
 \* taken on a peak channel)
 IsPeak(Wx, p) == p + 1 \in 1..Len(PTP(Wx)) /\ PTP(Wx)[p + 1] = SeqMax(PTP(Wx))
 CheckPeaks(r) == /\ Clause(r.id, "peak_channels", Len(r.channels) = Len(r.W) /\ \A t \in 1..Len(r.W) : IsPeak(r.W[t], r.channels[t]))
+                 \* templates_probes: the probe LABEL (as stored in the probe table, any integers) of a peak channel
+                 /\ Clause(r.id, "probes", r.tprobes = <<>> \/
+                        (Len(r.tprobes) = Len(r.W) /\ \A t \in 1..Len(r.W) :
+                            \E p \in 0..(Len(r.chprobe) - 1) : IsPeak(r.W[t], p) /\ r.tprobes[t] = r.chprobe[p + 1]))
                  /\ Clause(r.id, "durations", Len(r.dur) = Len(r.W) /\ \A t \in 1..Len(r.W) :
                         \E p \in 0..(Len(r.W[t][1]) - 1) : IsPeak(r.W[t], p) /\
                            r.dur[t] = FirstArgMax(Col(r.W[t], p + 1)) - FirstArgMin(Col(r.W[t], p + 1)))
